@@ -205,9 +205,28 @@ def tr_set_mslice(tree, out):
 
 
 def tr_calldata_slice(tree, out):
+    """the source is `self.data`, or -- in a creation frame, whose message data is the init code -- an empty ByteVec:
+         <d> = ByteVec() if self.is_create() else self.data ; return <d>.slice(start=.., stop=..)"""
+    what = "Message.calldata_slice"
     fn = find_function(tree, "calldata_slice", cls="Message")
-    ps = _params(fn, 2, "Message.calldata_slice")
-    tr_wrapper(out, fn, "Message.calldata_slice", "calldata_slice", Ctx(ps), None, None, "self.data.slice", ["start", "stop"], True)
+    ps = _params(fn, 2, what)
+    ic = find_function(tree, "is_create", cls="Message")
+    if [_u(st) for st in strip_docstring(ic.body)] != ["return self.call_scheme in (OP_CREATE, OP_CREATE2)"]:
+        _fail(ic, "Message.is_create: body differs from the modelled shape")
+    body = strip_docstring(fn.body)
+    src, kept = None, []
+    for st in body:
+        a = _assign(st)
+        if a is not None and isinstance(a[1], ast.IfExp) and _u(a[1].test) == "self.is_create()":
+            if src is not None or _u(a[1].body) != "ByteVec()" or _u(a[1].orelse) != "self.data":
+                _fail(st, f"{what}: `<d> = ByteVec() if self.is_create() else self.data` expected")
+            src = a[0]
+        else:
+            kept.append(st)
+    fn2 = ast.FunctionDef(name=fn.name, args=fn.args, body=kept, decorator_list=[], lineno=fn.lineno)
+    tr_wrapper(out, fn2, what, "calldata_slice", Ctx(ps), None, None, f"{src}.slice" if src else "self.data.slice", ["start", "stop"], True)
+    out.add("calldata_empty_in_create", [ps[0]], "bool", "true" if src else "false",
+            f"{what}: a creation frame (message data = init code) reads an empty sequence")
 
 
 class _Canon(ast.NodeTransformer):
@@ -513,8 +532,86 @@ def tr_call_anchors(tree):
         raise TranslateError("T-memwire: SEVM.call: the callee's Message is not built with data=arg")
 
 
+# ----------------------------------------------------------------- census of the slicing call sites
+
+CENSUS_NAMES = ("slice", "mslice", "set_mslice", "calldata_slice", "set_slice")
+
+# every call site of a slicing method in sevm.py, per enclosing top-level function / method: each one is either
+# translated above or shape-checked below; a new one is an unreviewed (start, size) / (start, stop) hand-over
+CENSUS = {
+    "copy_returndata_to_memory": {"slice": 1, "set_mslice": 1},
+    "Message.calldata_slice": {"slice": 1},
+    "State.mslice": {"slice": 1},
+    "State.set_mslice": {"set_slice": 1},
+    "State.ret": {"mslice": 1},
+    "Exec.sha3": {"mslice": 1},
+    "Exec.path_slice": {"slice": 1},          # Path.slice(var_set): not a byte sequence
+    "SEVM.call": {"mslice": 1},
+    "SEVM.create": {"mslice": 1},
+    "SEVM.run": {"slice": 4, "mslice": 2, "set_mslice": 5, "calldata_slice": 1},
+}
+
+# memory reads that hand (loc, size) straight to State.mslice: canonical statements (locals renamed v0, v1, ..)
+SHA3_SHAPE = ["v0 = self.mloc(check_size=False)", "v1 = self.int_of(self.st.pop(), 'symbolic SHA3 data size')",
+              "v2 = self.st.mslice(v0, v1).unwrap() if v1 else b''"]
+LOG_SHAPE = ["v0 = opcode - OP_LOG0", "v1 = ex.mloc()", "v2 = ex.int_of(state.pop(), 'symbolic LOG data size')",
+             "v3 = list((state.pop() for _ in range(v0)))", "v4 = state.mslice(v1, v2)", "ex.emit_log(EventLog(ex.this(), v3, v4))"]
+CREATE_SHAPE = ["v0 = ex.st.popi()", "v1 = ex.int_of(ex.st.pop(), 'symbolic CREATE offset')", "v2 = ex.int_of(ex.st.pop(), 'symbolic CREATE size')"]
+
+
+def census(tree):
+    got = {}
+
+    def count(fn, qual):
+        for node in ast.walk(fn):
+            if isinstance(node, ast.Call) and isinstance(node.func, ast.Attribute) and node.func.attr in CENSUS_NAMES:
+                got.setdefault(qual, {}).setdefault(node.func.attr, 0)
+                got[qual][node.func.attr] += 1
+
+    for n in tree.body:
+        if isinstance(n, (ast.FunctionDef, ast.AsyncFunctionDef)):
+            count(n, n.name)
+        elif isinstance(n, ast.ClassDef):
+            for m in n.body:
+                if isinstance(m, (ast.FunctionDef, ast.AsyncFunctionDef)):
+                    count(m, f"{n.name}.{m.name}")
+        else:
+            for node in ast.walk(n):
+                if isinstance(node, ast.Call) and isinstance(node.func, ast.Attribute) and node.func.attr in CENSUS_NAMES:
+                    raise TranslateError(f"T-memwire: slicing call at module level: {_u(node)[:80]!r}")
+    if got != CENSUS:
+        diff = {k: (got.get(k), CENSUS.get(k)) for k in set(got) | set(CENSUS) if got.get(k) != CENSUS.get(k)}
+        raise TranslateError(f"T-memwire: the slicing call sites of sevm.py differ from the reviewed ones (found, expected): {diff}")
+
+
+def tr_read_sites(tree):
+    fn = find_function(tree, "sha3", cls="Exec")
+    got = canon(strip_docstring(fn.body)[:3])
+    if got != SHA3_SHAPE:
+        raise TranslateError(f"T-memwire: Exec.sha3 reads memory in an unmodelled way: {got}")
+    run = find_function(tree, "run", cls="SEVM")
+    logs = [n for n in ast.walk(run) if isinstance(n, ast.If) and _u(n.test) == "OP_LOG0 <= opcode <= OP_LOG4"]
+    if len(logs) != 1:
+        raise TranslateError("T-memwire: the LOG branch of SEVM.run was not found")
+    body = [st for st in logs[0].body if not (isinstance(st, ast.If) and _u(st.test) == "ex.message().is_static")]
+    got = canon(body)
+    if got != LOG_SHAPE:
+        raise TranslateError(f"T-memwire: LOG reads memory in an unmodelled way: {got}")
+    cr = find_function(tree, "create", cls="SEVM")
+    body = [st for st in strip_docstring(cr.body) if not (isinstance(st, ast.If) and _u(st.test) == "ex.message().is_static")]
+    got = canon(body[:3])
+    if got != CREATE_SHAPE:
+        raise TranslateError(f"T-memwire: SEVM.create pops its operands in an unmodelled way: {got}")
+    names = [_assign(st)[0] for st in body[:3]]
+    want = f"ex.st.mslice({names[1]}, {names[2]})"
+    if not any(_assign(st) is not None and _u(_assign(st)[1]) == want for st in body[3:]):
+        raise TranslateError(f"T-memwire: SEVM.create: `{want}` not found")
+
+
 def translate(src_text):
     tree = ast.parse(src_text)
+    census(tree)
+    tr_read_sites(tree)
     out = Out()
     tr_mslice(tree, out)
     tr_set_mslice(tree, out)
